@@ -142,8 +142,46 @@ func v20gCheckStream(zctx *zed.Context, op *Op, in []v20gRec, sfx string) bool {
 	return true
 }
 
-func v20gRun(twoStreams bool) {
-	verif.Goroutines(true)
+// v20gMkRecConcrete is v20gMkRec with concrete contents (schedule variant):
+// every field null (if nulls) or the one byte b, b+1, ...
+func v20gMkRecConcrete(zctx *zed.Context, names []string, nulls bool, b0 byte) v20gRec {
+	var r v20gRec
+	var fields []zed.Field
+	var b zcode.Builder
+	for i, fn := range names {
+		f := v20gField{name: fn}
+		if nulls {
+			f.null = true
+			b.Append(nil)
+		} else {
+			f.body = []byte{b0 + byte(i)}
+			b.Append(f.body)
+		}
+		r.fields = append(r.fields, f)
+		fields = append(fields, zed.NewField(fn, zed.TypeString))
+	}
+	r.val = zed.NewValue(zctx.MustLookupTypeRecord(fields), b.Bytes())
+	return r
+}
+
+func v20gRun(twoStreams bool, sched int) {
+	data := 0
+	if sched > 0 {
+		// schedules are the quantifier: concrete field contents, without
+		// nulls or with the nullable fields null
+		verif.Schedules(sched)
+		data = verif.Choose("data", 2)
+	} else {
+		verif.Goroutines(true)
+	}
+	nrec := 0
+	v20gMkRec := func(zctx *zed.Context, name string, names []string, nullable bool) v20gRec {
+		if sched > 0 {
+			nrec++
+			return v20gMkRecConcrete(zctx, names, nullable && data == 1, byte('a'+4*nrec))
+		}
+		return v20gMkRec(zctx, name, names, nullable)
+	}
 	zctx := zed.NewContext()
 	saved := MemMaxBytes
 	MemMaxBytes = []int{1, 3, 1 << 20}[verif.Choose("memmax", 3)]
@@ -222,7 +260,7 @@ func v20gRun(twoStreams bool) {
 // verif:outside ONE deterministic goroutine schedule (the operator's goroutine runs whenever the consumer blocks in Pull); Pull(done=true) (ignored by the operator, issue #3436) and context cancellation; non-record values, unions (C20-O1/O3/O4); temp-file errors; a second stream (O5b)
 // verif:unwind 64
 func VerifH_C20_O5_fuse_op_exec() {
-	v20gRun(false)
+	v20gRun(false, 0)
 }
 
 // verif:desc C20-O5b the fuse operator over TWO streams: after the end-of-stream of the first, the parent delivers a second stream (what `over x => (fuse)` does for the next outer value, and what sort.Op/C06-O7 supports): it must be fused like the first and independently of it — one output per input, in order, one type = what fuse() reports for the second stream alone (its own fields only), fields preserved.  Assertion ids .../second-stream.
@@ -230,5 +268,17 @@ func VerifH_C20_O5_fuse_op_exec() {
 // verif:outside as O5; more than two streams
 // verif:unwind 64
 func VerifH_C20_O5b_fuse_op_second_stream() {
-	v20gRun(true)
+	v20gRun(true, 0)
+}
+
+// verif:desc C20-O5s the fuse operator over two streams, same run and same assertions as VerifH_C20_O5b_fuse_op_second_stream (and, for its first stream, VerifH_C20_O5_fuse_op_exec), under EVERY goroutine schedule with at most 2 preemptions (thorough tier: 3) at the channel operations, selects, closes, lock/once operations and the goroutine start of the real Op.Pull/run/pullInput/pushOutput/sendResult code, with a bounded free choice of which runnable goroutine continues: what each stream is fused to (one output per input, in order, one type = what fuse() reports for that stream alone, fields preserved, no error, EOS) does not depend on how the operator's goroutine and the consumer interleave
+// verif:bounds first stream {a:string}|{a,b} then {b:string}, one batch or one per record; second stream optional {c:string} then {a:string}, one batch; concrete field bytes, the second stream's fields all non-null or all null (Choose); MemMaxBytes in {1, 3, 2^20}; preemption bound 2 (thorough: 3) - two goroutines only (the operator's and the consumer)
+// verif:outside as VerifH_C20_O5b_fuse_op_second_stream except that schedules are explored up to the bound; symbolic field contents (O5/O5b); field loads/stores are not preemption points (data-race freedom between sync points is assumed)
+// verif:unwind 64
+func VerifH_C20_O5s_fuse_op_schedules() {
+	if verif.Thorough() {
+		v20gRun(true, 3)
+	} else {
+		v20gRun(true, 2)
+	}
 }
